@@ -74,7 +74,7 @@ func (g *vfGen) runMore7(slice string) bool {
 // ---- valid JSON generation: every token spelling, random layout ----
 
 func (g *vfGen) jws() string {
-	switch g.rng.Intn(6) {
+	switch g.intn(6) {
 	case 0:
 		return " "
 	case 1:
@@ -90,23 +90,23 @@ func (g *vfGen) jws() string {
 func (g *vfGen) jstring() string {
 	var sb strings.Builder
 	sb.WriteByte('"')
-	n := g.rng.Intn(8)
+	n := g.intn(8)
 	for i := 0; i < n; i++ {
-		switch g.rng.Intn(12) {
+		switch g.intn(12) {
 		case 0:
-			sb.WriteString([]string{",", "]", "}", "[", "{", ":"}[g.rng.Intn(6)])
+			sb.WriteString([]string{",", "]", "}", "[", "{", ":"}[g.intn(6)])
 		case 1:
-			sb.WriteString([]string{"\\\"", "\\\\", "\\/", "\\b", "\\f", "\\n", "\\r", "\\t"}[g.rng.Intn(8)])
+			sb.WriteString([]string{"\\\"", "\\\\", "\\/", "\\b", "\\f", "\\n", "\\r", "\\t"}[g.intn(8)])
 		case 2:
-			sb.WriteString(fmt.Sprintf("\\u%04x", g.rng.Intn(65536)))
+			sb.WriteString(fmt.Sprintf("\\u%04x", g.intn(65536)))
 		case 3:
-			sb.WriteString(fmt.Sprintf("\\u%04X", g.rng.Intn(65536)))
+			sb.WriteString(fmt.Sprintf("\\u%04X", g.intn(65536)))
 		case 4:
 			sb.WriteString("\xc3\xa9")
 		case 5:
 			sb.WriteString(" ")
 		default:
-			sb.WriteByte("abcdefghijklmnopqrstuvwxyzABC0123456789-_."[g.rng.Intn(42)])
+			sb.WriteByte("abcdefghijklmnopqrstuvwxyzABC0123456789-_."[g.intn(42)])
 		}
 	}
 	sb.WriteByte('"')
@@ -115,27 +115,27 @@ func (g *vfGen) jstring() string {
 
 func (g *vfGen) jnumber() string {
 	s := ""
-	if g.rng.Intn(3) == 0 {
+	if g.intn(3) == 0 {
 		s = "-"
 	}
-	if g.rng.Intn(4) == 0 {
+	if g.intn(4) == 0 {
 		s += "0"
 	} else {
-		s += fmt.Sprintf("%d", 1+g.rng.Intn(99999))
+		s += fmt.Sprintf("%d", 1+g.intn(99999))
 	}
-	if g.rng.Intn(3) == 0 {
-		s += fmt.Sprintf(".%d", g.rng.Intn(1000))
+	if g.intn(3) == 0 {
+		s += fmt.Sprintf(".%d", g.intn(1000))
 	}
-	if g.rng.Intn(3) == 0 {
-		s += []string{"e", "E"}[g.rng.Intn(2)] + []string{"", "+", "-"}[g.rng.Intn(3)] + fmt.Sprintf("%d", g.rng.Intn(300))
+	if g.intn(3) == 0 {
+		s += []string{"e", "E"}[g.intn(2)] + []string{"", "+", "-"}[g.intn(3)] + fmt.Sprintf("%d", g.intn(300))
 	}
 	return s
 }
 
 func (g *vfGen) jvalue(depth int) string {
-	k := g.rng.Intn(10)
+	k := g.intn(10)
 	if depth <= 0 && k >= 6 {
-		k = g.rng.Intn(6)
+		k = g.intn(6)
 	}
 	switch k {
 	case 0:
@@ -155,7 +155,7 @@ func (g *vfGen) jvalue(depth int) string {
 }
 
 func (g *vfGen) jarray(depth int) string {
-	n := g.rng.Intn(4)
+	n := g.intn(4)
 	var parts []string
 	for i := 0; i < n; i++ {
 		parts = append(parts, g.jws()+g.jvalue(depth)+g.jws())
@@ -167,7 +167,7 @@ func (g *vfGen) jarray(depth int) string {
 }
 
 func (g *vfGen) jobject(depth int) string {
-	n := g.rng.Intn(4)
+	n := g.intn(4)
 	var parts []string
 	for i := 0; i < n; i++ {
 		parts = append(parts, g.jws()+g.jstring()+g.jws()+":"+g.jws()+g.jvalue(depth)+g.jws())
@@ -179,9 +179,9 @@ func (g *vfGen) jobject(depth int) string {
 }
 
 func (g *vfGen) jdocument() string {
-	d := 1 + g.rng.Intn(4)
+	d := 1 + g.intn(4)
 	var body string
-	if g.rng.Intn(2) == 0 {
+	if g.intn(2) == 0 {
 		body = g.jarray(d)
 	} else {
 		body = g.jobject(d)
@@ -213,7 +213,7 @@ func (g *vfGen) genC08() {
 			continue
 		}
 		d = strings.NewReplacer("\n", " ", "\r", " ").Replace(d)
-		tail := []string{"\n\n", "\n\n\n", "\r\n\r\n", "\n \n", "\n\t\n\n", " \n\n "}[g.rng.Intn(6)]
+		tail := []string{"\n\n", "\n\n\n", "\r\n\r\n", "\n \n", "\n\t\n\n", " \n\n "}[g.intn(6)]
 		t := d + tail
 		g.emit(vfOp("jdoc", []byte(t)))
 		for _, l := range []int{0, len(t) + 1, len(t), len(t) - 1, len(d) + 1, len(d) + 2} {
@@ -263,20 +263,20 @@ func (g *vfGen) genC09() {
 		if len(d) == 0 || len(d) > 300 {
 			continue
 		}
-		for k := 0; k < 1+g.rng.Intn(3); k++ {
+		for k := 0; k < 1+g.intn(3); k++ {
 			structural := []byte("{}[]\",: 1e-.tfn\\")
-			switch g.rng.Intn(4) {
+			switch g.intn(4) {
 			case 0:
-				j := g.rng.Intn(len(d))
+				j := g.intn(len(d))
 				d = append(d[:j], d[j+1:]...)
 			case 1:
-				j := g.rng.Intn(len(d) + 1)
-				d = append(d[:j], append([]byte{structural[g.rng.Intn(len(structural))]}, d[j:]...)...)
+				j := g.intn(len(d) + 1)
+				d = append(d[:j], append([]byte{structural[g.intn(len(structural))]}, d[j:]...)...)
 			case 2:
-				d[g.rng.Intn(len(d))] = structural[g.rng.Intn(len(structural))]
+				d[g.intn(len(d))] = structural[g.intn(len(structural))]
 			default:
 				if len(d) > 1 {
-					j := g.rng.Intn(len(d) - 1)
+					j := g.intn(len(d) - 1)
 					d[j], d[j+1] = d[j+1], d[j]
 				}
 			}
@@ -298,7 +298,7 @@ func (g *vfGen) genC09() {
 func (g *vfGen) genC10() {
 	geo := []string{"Feature", "FeatureCollection", "Point", "LineString", "Polygon", "MultiPoint", "MultiLineString", "MultiPolygon", "GeometryCollection", "feature", "Circle", ""}
 	sib := func() string {
-		switch g.rng.Intn(9) {
+		switch g.intn(9) {
 		case 0:
 			return `"accessors":[1]`
 		case 1:
@@ -316,35 +316,35 @@ func (g *vfGen) genC10() {
 		case 7:
 			return `"deep":[[[{"asset":{"version":"1.0"}}]]]`
 		}
-		return `"k` + fmt.Sprint(g.rng.Intn(100)) + `":` + g.jvalue(2)
+		return `"k` + fmt.Sprint(g.intn(100)) + `":` + g.jvalue(2)
 	}
 	deciding := func() (string, string) {
-		switch g.rng.Intn(8) {
+		switch g.intn(8) {
 		case 0, 1:
-			return fmt.Sprintf(`"type"%s:%s"%s"%s`, g.jws(), g.jws(), geo[g.rng.Intn(len(geo))], g.jws()), "geo"
+			return fmt.Sprintf(`"type"%s:%s"%s"%s`, g.jws(), g.jws(), geo[g.intn(len(geo))], g.jws()), "geo"
 		case 2:
-			return `"log"` + g.jws() + `:` + g.jws() + `{` + []string{`"version":"1.2"`, `"creator" : {}`, `"entries":[]`, `"pages":[]`, `"Version":1`}[g.rng.Intn(5)] + `}`, "har"
+			return `"log"` + g.jws() + `:` + g.jws() + `{` + []string{`"version":"1.2"`, `"creator" : {}`, `"entries":[]`, `"pages":[]`, `"Version":1`}[g.intn(5)] + `}`, "har"
 		case 3:
 			return `"log"` + g.jws() + `:{"x":[1,2],"entries"` + g.jws() + `:[{"a":[1]}]}`, "har"
 		case 4:
-			return `"asset"` + g.jws() + `:` + g.jws() + `{"version"` + g.jws() + `:` + g.jws() + `"` + []string{"1.0", "2.0", "3.0", "2"}[g.rng.Intn(4)] + `"}`, "gltf"
+			return `"asset"` + g.jws() + `:` + g.jws() + `{"version"` + g.jws() + `:` + g.jws() + `"` + []string{"1.0", "2.0", "3.0", "2"}[g.intn(4)] + `"}`, "gltf"
 		case 5:
 			return `"asset":{"generator":"g","copyright":[1],"version":"2.0"}`, "gltf"
 		case 6:
-			return `"type":` + []string{`["Feature"]`, `{"type":"Feature"}`, `1`, `null`}[g.rng.Intn(4)], "none"
+			return `"type":` + []string{`["Feature"]`, `{"type":"Feature"}`, `1`, `null`}[g.intn(4)], "none"
 		}
 		return sib(), "none"
 	}
 	n := g.pick(1500, 60000)
 	for i := 0; i < n; i++ {
-		k := g.rng.Intn(5)
+		k := g.intn(5)
 		var ms []string
 		for j := 0; j < k; j++ {
 			ms = append(ms, sib())
 		}
 		d1, _ := deciding()
 		ms = append(ms, d1)
-		if g.rng.Intn(4) == 0 {
+		if g.intn(4) == 0 {
 			d2, _ := deciding()
 			ms = append(ms, d2)
 		}
@@ -368,17 +368,17 @@ func (g *vfGen) genC10() {
 		`"asset":{"version":"2.0"}`, `"asset" : {"generator":"x", "version" : "1.0" }`}
 	for i := 0; i < g.pick(120, 3000); i++ {
 		var before, after []string
-		for j := 0; j < g.rng.Intn(4); j++ {
+		for j := 0; j < g.intn(4); j++ {
 			before = append(before, g.jws()+neutralSib(g)+g.jws())
 		}
-		for j := 0; j < 1+g.rng.Intn(4); j++ {
+		for j := 0; j < 1+g.intn(4); j++ {
 			after = append(after, g.jws()+neutralSib(g)+g.jws())
 		}
-		dec := only[g.rng.Intn(len(only))]
+		dec := only[g.intn(len(only))]
 		head := g.jws() + "{" + strings.Join(append(before, g.jws()+dec), ",")
 		doc := head + "," + strings.Join(after, ",") + "}"
 		for l := len(head); l <= len(doc)+1; l++ {
-			if g.thorough || l < len(head)+6 || g.rng.Intn(5) == 0 {
+			if g.thorough || l < len(head)+6 || g.intn(5) == 0 {
 				g.emit(vfOp("jsubcut", []byte(doc), l, len(head)))
 			}
 		}
@@ -386,7 +386,7 @@ func (g *vfGen) genC10() {
 }
 
 func neutralSib(g *vfGen) string {
-	switch g.rng.Intn(6) {
+	switch g.intn(6) {
 	case 0:
 		return `"accessors":[1,2]`
 	case 1:
@@ -398,5 +398,5 @@ func neutralSib(g *vfGen) string {
 	case 4:
 		return `"s":"x, y] z}"`
 	}
-	return `"k` + fmt.Sprint(g.rng.Intn(100)) + `":[[1],[2,[3]]]`
+	return `"k` + fmt.Sprint(g.intn(100)) + `":[[1],[2,[3]]]`
 }
